@@ -75,10 +75,18 @@ def gen(rng, tier, index):
     strict = rng.random() < 0.5
     backends = ('t',) if rng.random() < 0.6 else tuple(pargen.BACKENDS_POOL)
     user_src = (not strict) and rng.random() < 0.06
+    # a user-written stage right before the parallel stage whose iterator takes a
+    # while to clean up, or is a plain iterator object (no close / throw)
+    user_var = None if user_src or rng.random() >= 0.15 else \
+        rng.choice([{'cleanup': rng.choice([3, 50])}, {'plain_iter': True}])
     desc, a = pargen.gen_desc(
-        rng, max_n=8, simple=strict, user_stage_p=1.0 if user_src else 0.0,
+        rng, max_n=8, simple=strict, user_stage_p=1.0 if (user_src or user_var) else 0.0,
         par_kw=dict(backends=backends, max_extra_b=2,
                     catch_p=0.0 if strict else 0.15))
+    if user_var:
+        for s_ in desc['stages']:
+            if s_['op'] == 'userstage':
+                s_.update(user_var)
     n = desc['source']['n']
     nout = len(a.elems) if a.elems is not None else (a.n if a.n is not None else n)
     kind = rng.choice(['close', 'close', 'drop', 'exc', 'cycle_gc',
